@@ -160,7 +160,9 @@ class SparselyBin(Factory, Container):
 
     @inheritdoc(Container)
     def zero(self):
-        return SparselyBin(self.binWidth, self.quantity, self.value, self.nanflow.zero(), self.origin)
+        out = SparselyBin(self.binWidth, self.quantity, self.value, self.nanflow.zero(), self.origin)
+        out.contentType = self.contentType
+        return out
 
     @inheritdoc(Container)
     def __add__(self, other):
@@ -182,6 +184,7 @@ class SparselyBin(Factory, Container):
                 self.origin,
             )
             out.entries = self.entries + other.entries
+            out.contentType = self.contentType
             # every bin of the result is a new object (no child is shared with an operand)
             out.bins = {}
             for i, v in self.bins.items():
